@@ -14,6 +14,9 @@
 import itertools
 
 import contextlib
+import json
+import sys
+import os
 
 import numpy as np
 
@@ -503,7 +506,69 @@ def run_dirtydir(case):
     return res
 
 
-KINDS = {"dirtydir": run_dirtydir, "replay": run_replay, "resume_replay": run_resume_replay, "seq": run_seq, "repro": run_repro, "iterpos": run_iterpos, "midrun": run_midrun}
+_CHILD = r"""
+import sys, json, hashlib
+sys.path.insert(0, %(verif)r)
+from mc import env
+from mc.pipeline import Probe, digest, snap
+import numpy as np
+cfg = json.loads(%(cfg)r)
+from mc.pipeline import make_sampler
+# the REAL global generator (no harness tape): what a user's script does.  Without a random_state the script seeds the generator itself.
+np.random.seed(4242 + %(base)d)
+try:
+    with env.quiet():
+        s, ll, c = make_sampler(cfg)
+        s.run(n_total=c["n_total"], progress=False)
+        post = s.posterior(return_logw=True)
+    print(json.dumps({"history": digest(snap(s.state)["history"]), "posterior": digest([np.asarray(a) for a in post]), "evidence": float(s.evidence()[0]),
+                      "logz": [float(z) for z in s.state._history["logz"]], "optimize": sys.flags.optimize, "hashseed": sys.flags.hash_randomization}))
+except Exception as e:
+    print(json.dumps({"raised": repr(e)}))
+"""
+
+
+def run_interp(case):
+    """The same seeded run in FRESH interpreter processes that differ only in how the interpreter was started: string-hash seed (PYTHONHASHSEED 0 /
+    1 / 987 / random) and optimisation level (python, python -O, python -OO: assert statements and docstrings removed).  Histories, posterior and
+    evidence must be identical: a result may not depend on the hash salt of the process nor on side effects placed inside assert statements."""
+    import subprocess
+
+    res = Res()
+    cfg = dict(case["cfg"])
+    code = _CHILD % {"verif": os.path.dirname(os.path.dirname(os.path.abspath(__file__))), "cfg": json.dumps(cfg), "base": case["base"]}
+    variants = [("baseline", [], "0"), ("hashseed=1", [], "1"), ("hashseed=987", [], "987"), ("hashseed=random", [], "random"), ("python -O", ["-O"], "0"), ("python -OO", ["-OO"], "0")]
+    outs = {}
+    for name, flags, hs in variants:
+        e = dict(os.environ, PYTHONHASHSEED=hs)
+        e.pop("PYTHONOPTIMIZE", None)
+        r = subprocess.run([sys.executable, "-W", "ignore"] + flags + ["-c", code], env=e, capture_output=True, text=True, timeout=600)
+        res.evals += 1
+        try:
+            outs[name] = json.loads(r.stdout.strip().splitlines()[-1])
+        except Exception:
+            outs[name] = {"raised": (r.stderr or r.stdout)[-300:]}
+    res.states += 1
+    res.traces += 1
+    res.outcome(("interp", tuple(sorted((k, repr(v)) for k, v in cfg.items()))), nontrivial=True)
+    b = outs["baseline"]
+    if "raised" in b:
+        res.bump("aborted_runs")
+        return res
+    for name, o in outs.items():
+        if name == "baseline":
+            continue
+        if "raised" in o:
+            res.violate(f"interpreter:{name.split('=')[0]}:raises", f"the run that completes in a plain interpreter fails under {name}: {o['raised']} (cfg={cfg})", dict(case))
+            continue
+        diff = [k for k in ("history", "posterior", "evidence", "logz") if o[k] != b[k]]
+        if diff:
+            res.violate(f"interpreter:{name.split('=')[0]}", f"same seeded run, fresh interpreter started with {name}: {', '.join(diff)} differ from the plain interpreter "
+                        f"(evidence {o['evidence']!r} vs {b['evidence']!r}; cfg={cfg})", dict(case))
+    return res
+
+
+KINDS = {"interp": run_interp, "dirtydir": run_dirtydir, "replay": run_replay, "resume_replay": run_resume_replay, "seq": run_seq, "repro": run_repro, "iterpos": run_iterpos, "midrun": run_midrun}
 
 FACTORS = [
     ("sample", ["tpcn", "rwm"]),
@@ -552,4 +617,8 @@ def plan(ctx):
     dd = [{"kind": "dirtydir", "cfg": dict(n_particles=16, n_total=64, clustering=cl, sample=k, random_state=rs_), "save_every": sv, "base": ctx.seed}
           for cl in (False, True) for k in ("tpcn", "rwm") for rs_ in (5, None) for sv in (1, 3)]
     ctx.explore("pre-populated-output-directory", dd)
+    ctx.explore("interpreter-start-up", [{"kind": "interp", "cfg": c, "base": ctx.seed} for c in (
+        dict(n_particles=16, n_total=64, clustering=True, target="hole", random_state=7, output_label="chainA"),
+        dict(n_particles=16, n_total=64, clustering=False, target="gauss", sample="rwm", random_state=7, eval="blobs"),
+        dict(n_particles=12, n_total=48, clustering=True, target="bimodal", random_state=None, vv=0.5))])
     ctx.bounds.update({"repro_configs": len(rows), "random_states": [0, 1, 12345]})
